@@ -174,3 +174,53 @@ def fresh_flags(eng, res, modules, rule="R-FRESH-FLAG") -> int:
                bad[0][0] if bad else fi.node, not bad, "; ".join(f"line {r.lineno}: {why}" for r, lp, why in bad[:2]))
         n += 1
     return n
+
+
+def stale_results(eng, fi) -> List[Tuple[ast.Name, ast.AST, str]]:
+    """Reads *after* a loop of a local that is assigned only inside that loop: every way out of the loop (break, or the
+    test turning false after at least one iteration) must pass an assignment in the iteration that leaves — otherwise
+    the value of an earlier iteration is handed on."""
+    fl = eng.flow(fi)
+    cfg = fl.cfg
+    by_name: Dict[str, list] = {}
+    for d in fl.defs:
+        by_name.setdefault(d.name, []).append(d)
+    out = []
+    for lp in [n for n in own_nodes(fi.node) if isinstance(n, (ast.For, ast.While))]:
+        head = cfg.node_of(lp)
+        starts = [d for d, lab in cfg.succ[head] if lab == "T"]
+        breaks = [cfg.node_of(b) for b in ast.walk(lp) if isinstance(b, ast.Break) and cfg.has(b) and cfg.enclosing_loops(b)[:1] == [lp]]
+        for name, defs in by_name.items():
+            if any(d.kind in ("param", "global", "free", "import", "def") or d.stmt is None for d in defs):
+                continue
+            if not all(within(d.stmt, lp.body) for d in defs) or any(d.nid == head for d in defs):
+                continue
+            reads = [r for r in own_nodes(fi.node) if isinstance(r, ast.Name) and r.id == name and isinstance(r.ctx, ast.Load) and not within(r, lp) and cfg.has(r)
+                     and cfg.node_of(r) in cfg.reachable([head])]
+            if not reads:
+                continue
+            def_nodes = {d.nid for d in defs}
+            reach = cfg.reachable(starts, avoid_nodes=def_nodes | {head}, skip_exc=True)
+            stale_exits = [b for b in breaks if b in reach]
+            # leaving through the loop test after a full iteration without an assignment
+            back = [p for p, lab in cfg.pred[head] if p in reach and lab != "exc"]
+            has_f = any(lab == "F" for _, lab in cfg.succ[head])
+            if stale_exits or (has_f and back):
+                ln = cfg.nodes[stale_exits[0]].stmt.lineno if stale_exits else lp.lineno
+                out.append((reads[0], lp, f"`{name}` is assigned only inside the loop at line {lp.lineno}; the exit at line {ln} can be reached in an iteration that does not assign it, so the value of an earlier iteration (or none) is used after the loop"))
+    return out
+
+
+def fresh_results(eng, res, modules, rule="R-FRESH-RESULT") -> int:
+    n = 0
+    for q, fi in sorted(eng.prog.functions.items()):
+        if fi.module.name not in modules:
+            continue
+        if not any(isinstance(x, (ast.For, ast.While)) for x in own_nodes(fi.node)):
+            continue
+        bad = stale_results(eng, fi)
+        res.unit(fi)
+        res.ob(rule, fi, "loop-result-fresh", "a value computed in a loop and used after it is assigned in the iteration that leaves the loop (never a leftover of an earlier iteration)",
+               bad[0][0] if bad else fi.node, not bad, "; ".join(w for _, _, w in bad[:2]))
+        n += 1
+    return n
